@@ -2,7 +2,7 @@
    (The same theorems about the index space serve C07 and C08: the three spaces share the code.) *)
 From Coq Require Import List Arith NArith Bool.
 Import ListNotations.
-From Orca Require Import Util Reindex Reorg ReidxProofs ReidxBind ReidxInv CheckReidx SelfReidx GenRefers RefersThm ReidxHandles.
+From Orca Require Import Util Reindex Reorg ReidxProofs ReidxBind ReidxInv CheckReidx SelfReidx GenRefers RefersThm ReidxHandles GenReorg GenReorgProofs.
 Local Open Scope N_scope.
 
 (* reorganise_generic (the one-pass remove/insert/push loop over a snapshot) in closed form, for every
@@ -141,3 +141,20 @@ Theorem C06_returned_id_stays_bound :
   exists q, lookup mp id = Some q /\ designates e x q = Some fp.
 Proof. exact returned_id_designates_in_emitted_module. Qed.
 Print Assumptions C06_returned_id_stays_bound.
+
+(* Tie to the source by translation: the loop body of Module::reorganise_generic and of get_mapping_generic, as the
+   translator reads them from /repo/src/ir/module/mod.rs on every check and turns them into Gallina statement by
+   statement (Gen/GenReorg.v), ARE the hand-written model the theorems above speak about -- for all arguments. *)
+Theorem C06_translated_reorganise_is_the_model :
+  (forall orig idx val st, gen_rstep orig idx val st = Reindex.rstep orig idx val st) /\
+  (forall orig items, gen_reorganise orig items = Reindex.reorganise orig items) /\
+  (forall l pos acc, gen_mapping_from pos l acc = mapping_from pos l acc).
+Proof. exact (conj gen_rstep_is_rstep (conj gen_reorganise_is_reorganise gen_mapping_is_mapping)). Qed.
+Print Assumptions C06_translated_reorganise_is_the_model.
+Theorem C06_translated_recalculate_ids_is_index_space : forall s, s_recalc s = true ->
+  index_space s =
+  let l := gen_reorganise (s_num s - s_added s) (s_items s) in
+  let m := gen_mapping_from 0 l [] in
+  if N.eqb (lenN l) (lenN m) then Ok (l, m) else Panic 100.
+Proof. exact gen_recalculate_is_index_space. Qed.
+Print Assumptions C06_translated_recalculate_ids_is_index_space.
